@@ -246,7 +246,7 @@ func (s *c19State) battery(r *gen.R, exhaustiveSub int, mine []string) {
 			continue
 		}
 		for k := 0; k < 6 && !s.bad; k++ {
-			tail := gen.Pick(r, []string{".", "..", ".x", ".utf8-light", ".csv", ".a.b.c", ". ", ".\n", "." + r.Str(gen.FAscii|gen.FHTML|gen.FWide, 3), ".texttable.none"})
+			tail := gen.Pick(r, []string{".tsv", ".tab", ".TSV", ".foo.tsv", ".pretty", ".compact", ".indent", ".ascii", ".excel", ".gfm", ".", "..", ".x", ".utf8-light", ".csv", ".a.b.c", ". ", ".\n", "." + r.Str(gen.FAscii|gen.FHTML|gen.FWide, 3), ".texttable.none"})
 			s.checkSubVariant(sub, caseVariant(sub, r.Intn(nv))+tail)
 		}
 	}
